@@ -149,8 +149,11 @@ def replay(pattern, folders, opts, witness):
     p = os.path.join(d, "a.7z")
     try:
         open(p, "wb").write(img)
-        z = py7zr.SevenZipFile(p)
+        z = py7zr.SevenZipFile(p, password="pw") if opts.get("password") else py7zr.SevenZipFile(p)
         names = [e["name"] for e in entries]
+        if z.needs_password() != bool(opts.get("password")):   # (the replay archive carries no AES coder)
+            return True, "needs_password() = %s for an archive without encryption opened %s a password" % (
+                z.needs_password(), "with" if opts.get("password") else "without")
         if z.getnames() != names or z.namelist() != names or [f.filename for f in z.list()] != names:
             return True, "names differ: %s" % z.getnames()
         di = 0
